@@ -554,34 +554,22 @@ pub(crate) fn parse_const(c: &ItemConst) -> Result<RustItem, ParseError> {
 }
 
 fn parse_const_expr(e: &Expr) -> Result<RustConstExpr, ParseError> {
-    struct ExprLitVisitor(pub Option<Result<RustConstExpr, ParseError>>);
-    impl Visit<'_> for ExprLitVisitor {
-        fn visit_expr_lit(&mut self, el: &ExprLit) {
-            if self.0.is_some() {
-                // should we throw an error instead of silently ignoring a second literal?
-                // or would this create false positives?
-                return;
-            }
-            let check_literal_type = || {
-                Ok(match &el.lit {
-                    Lit::Int(lit_int) => {
-                        let int: i128 = lit_int
-                            .base10_parse()
-                            .map_err(|_| ParseError::RustConstTypeInvalid)?;
-                        RustConstExpr::Int(int)
-                    }
-                    _ => return Err(ParseError::RustConstTypeInvalid),
-                })
-            };
-
-            self.0.replace(check_literal_type());
-        }
+    // Only a plain integer literal is supported. Parentheses and an `as` cast around
+    // it are looked through; anything else (`-5`, `1 + 2`, `[1, 2]`, `f(3)`) would be
+    // generated with a wrong value and is rejected.
+    match e {
+        Expr::Lit(ExprLit {
+            lit: Lit::Int(lit_int),
+            ..
+        }) => lit_int
+            .base10_parse()
+            .map(RustConstExpr::Int)
+            .map_err(|_| ParseError::RustConstTypeInvalid),
+        Expr::Paren(paren) => parse_const_expr(&paren.expr),
+        Expr::Group(group) => parse_const_expr(&group.expr),
+        Expr::Cast(cast) => parse_const_expr(&cast.expr),
+        _ => Err(ParseError::RustConstTypeInvalid),
     }
-    let mut expr_visitor = ExprLitVisitor(None);
-    syn::visit::visit_expr(&mut expr_visitor, e);
-    expr_visitor
-        .0
-        .unwrap_or(Err(ParseError::RustConstTypeInvalid))
 }
 
 // Helpers
